@@ -14,13 +14,20 @@ def getOpt (j : Json) : R (Option Fl) :=
 def opGuard : Op := fun j => do
   let name ← fStr j "name"
   let args ← getList getOpt (← field j "args")
+  let strs ← match fieldOpt j "strs" with
+    | some v => getList getStr v
+    | none => pure []
   match SV.Gen.Guards.table.lookup name with
-  | none => throw s!"no translated guard {name}"
   | some f => match f args with
     | some b => pure (outBool b)
     | none => throw s!"arity mismatch for {name}"
+  | none => match SV.Gen.Guards.tableS.lookup name with   -- guards with a string parameter
+    | none => throw s!"no translated guard {name}"
+    | some f => match f strs args with
+      | some b => pure (outBool b)
+      | none => throw s!"arity mismatch for {name}"
 
-def opNames : Op := fun _ => pure (outStrList (SV.Gen.Guards.table.map (·.1)))
+def opNames : Op := fun _ => pure (outStrList (SV.Gen.Guards.table.map (·.1) ++ SV.Gen.Guards.tableS.map (·.1)))
 def opExceptions : Op := fun _ =>
   pure (outObj (SV.Gen.Guards.exceptions.map fun (n, e) => (n, outStr e)))
 
